@@ -35,6 +35,8 @@ def jobs(tier):
         mk('C05', 'small_history_tree/4', S.small_history_tree(4), witnesses=W),
         mk('C05', 'warm_other_bus/AB', S.warm_other_bus_during_await(('A', 'B')), witnesses=W),
         mk('C05', 'warm_other_bus/BA', S.warm_other_bus_during_await(('B', 'A')), witnesses=W),
+        mk('C05', 'warm_other_bus/AB/second_loop', S.warm_other_bus_during_await(('A', 'B'), prelude=True), witnesses=W),
+        mk('C05', 'warm_other_bus/AB/idle_gap', S.warm_other_bus_during_await(('A', 'B'), gap='3/2'), witnesses=W),
         mk('C05', 'x2/other_running/immediate', S.two_bus_await('other_running', ('A', 'B'), yield_first=False), witnesses=W),
         mk('C05', 'child/await/k0/decoys', dict(S.child('await', k=0), decoys={'A': 2}), witnesses=W),
     ]
